@@ -81,6 +81,9 @@ func init() {
 			}
 			sw.run(texts, nil, true, false, func(o *GenOut) {
 				if o.Lex == nil {
+					if o.Res.Exit == 0 && !o.Res.Hang {
+						ev.Inconsistent("table reader cannot read the lexer tables emitted for a family grammar: %s\n%s", o.ReadErr, o.Text)
+					}
 					return
 				}
 				mu.Lock()
